@@ -71,6 +71,7 @@ Ltac lg_step :=
   | |- context [if ?c then Ok ?a else Ok ?b] => rewrite (if_ok c a b)
   | |- bind ?e _ = bind ?e' _ => unify e e'; apply bind_ext; intros ?
   | |- context [match ?p with pair _ _ => _ end] => is_var p; destruct p
+  | |- context [if negb ?c then ?x else ?y] => rewrite (if_negb_flip c x y)             (* canonical orientation, both sides *)
   | |- context [bind (if ?c then _ else _) _] => destruct c eqn:?
   | |- (if ?c then _ else _) = _ => destruct c eqn:?
   | |- _ = (if ?c then _ else _) => destruct c eqn:?
